@@ -109,15 +109,15 @@ example : BaseOk [[97, 112, 105]] ∧ PathOk [[117], [37, 50, 69], [120]] := by
 
 /-- **Style round trip, general form** (all cells, all names, all values).  For every cell of the
     location × style × explode × type table that denotes a single string and that the serializer handles
-    (`goodCell`: all of them once the table is repaired; all but `knownBadCell` as found), every value of the declared
+    (`goodCell`: all of them once both table sites are repaired; all but `knownBadCell` as found), every value of the declared
     type that satisfies the no-delimiter hypothesis `Decodable` and (as found) contains no boolean / null:
     the wire text is defined and the reference decoder of the declared style returns the coerced value. -/
-theorem style_roundtrip (vt vs : Variant) (c : Cell) (name : Str) (x : Val) (sh : Shape)
-    (hgood : goodCell vt c = true) (hsh : cellShape c = some sh) (hd : Decodable name sh x) (hs : StrOk vs x) :
-    ∃ w, cellWire vt vs c name x = some w ∧ decodeCell c name w = some (coerce x) := by
+theorem style_roundtrip (vt vm vs : Variant) (c : Cell) (name : Str) (x : Val) (sh : Shape)
+    (hgood : goodCell vt vm c = true) (hsh : cellShape c = some sh) (hd : Decodable name sh x) (hs : StrOk vs x) :
+    ∃ w, cellWire vt vm vs c name x = some w ∧ decodeCell c name w = some (coerce x) := by
   simp only [decodeCell, hsh, Option.bind_some]
   obtain ⟨loc, style, explode, ty⟩ := c
-  cases vt <;> cases loc <;> rcases style with _ | (_|_|_|_|_|_|_|_) <;> rcases explode with _ | _ | _ <;> cases ty <;>
+  cases vt <;> cases vm <;> cases loc <;> rcases style with _ | (_|_|_|_|_|_|_|_) <;> rcases explode with _ | _ | _ <;> cases ty <;>
   first
     | exact absurd hgood (by decide)
     | (have := Option.some.inj hsh; subst this
@@ -128,18 +128,18 @@ theorem style_roundtrip (vt vs : Variant) (c : Cell) (name : Str) (x : Val) (sh 
         | exact cell_plain_toString' rfl hd hs)
 
 /-- Full statement with both sites repaired. -/
-theorem style_roundtrip_repaired : StyleRoundtrip .repaired .repaired := by
+theorem style_roundtrip_repaired : StyleRoundtrip .repaired .repaired .repaired := by
   intro c name x sh hsingle hsh hd
-  exact style_roundtrip .repaired .repaired c name x sh (by simp [goodCell, hsingle]) hsh hd (Or.inl rfl)
+  exact style_roundtrip .repaired .repaired .repaired c name x sh (by simp [goodCell, hsingle]) hsh hd (Or.inl rfl)
 
 /-- The full statement is false for the code as found: `matrix`, `explode: false`, `["x","y"]` for parameter `p` is
     written `;x,y` — without `p=` — which the matrix decoder rejects. -/
-theorem style_roundtrip_full_false : ¬ StyleRoundtrip .asFound .asFound := by
+theorem style_roundtrip_full_false : ¬ StyleRoundtrip .asFound .asFound .asFound := by
   intro h
   obtain ⟨w, hw, hdec⟩ := h ⟨.path, some .matrix, some false, .array⟩ [112] (.arr [.str [120], .str [121]]) .matrixList
     (by decide) (by decide) (by refine ⟨⟨by simp, ?_⟩, by simp [spell]⟩; intro x hx; simp at hx; rcases hx with rfl | rfl <;> simp [spell])
   have : w = [59, 120, 44, 121] := by
-    have : cellWire .asFound .asFound ⟨.path, some .matrix, some false, .array⟩ [112] (.arr [.str [120], .str [121]])
+    have : cellWire .asFound .asFound .asFound ⟨.path, some .matrix, some false, .array⟩ [112] (.arr [.str [120], .str [121]])
         = some [59, 120, 44, 121] := by decide
     rw [this] at hw; exact (Option.some.inj hw).symm
   subst this
@@ -151,8 +151,9 @@ theorem style_roundtrip_full_false : ¬ StyleRoundtrip .asFound .asFound := by
 theorem style_roundtrip_partial (c : Cell) (name : Str) (x : Val) (sh : Shape)
     (hsingle : singleStringCell c = true) (hbad : knownBadCell c = false) (hsh : cellShape c = some sh)
     (hd : Decodable name sh x) (hplain : allPlain x = true) :
-    ∃ w, cellWire .asFound .asFound c name x = some w ∧ decodeCell c name w = some (coerce x) :=
-  style_roundtrip .asFound .asFound c name x sh (by simp [goodCell, hsingle, hbad]) hsh hd (Or.inr hplain)
+    ∃ w, cellWire .asFound .asFound .asFound c name x = some w ∧ decodeCell c name w = some (coerce x) := by
+  have h1 : badDefaultsCell c = false ∧ badMatrixCell c = false := by simpa [knownBadCell] using hbad
+  exact style_roundtrip .asFound .asFound .asFound c name x sh (by simp [goodCell, hsingle, h1.1, h1.2]) hsh hd (Or.inr hplain)
 
 /-- every single-string cell has a reference shape (the hypothesis `cellShape c = some sh` is never the obstacle) -/
 theorem singleString_has_shape (c : Cell) (h : singleStringCell c = true) : ∃ sh, cellShape c = some sh := by
@@ -165,8 +166,9 @@ theorem singleString_has_shape (c : Cell) (h : singleStringCell c = true) : ∃ 
 /-- the as-found table yields **no** serializer at all for a path array / object whose `style` is absent (default
     `simple`): the list reaches `str.format` and is written with Python's `repr` -/
 theorem path_default_style_not_serialized (name : Str) (e : Option Bool) (ty : Ty) :
-    defConvs .asFound ⟨name, ⟨.path, none, e, ty⟩, none⟩ = [] := by
-  rcases e with _ | _ | _ <;> cases ty <;> rfl
+    defConvs .asFound ⟨name, ⟨.path, none, e, ty⟩, none⟩ = [] ∧
+    defConvs .repaired ⟨name, ⟨.path, none, none, .array⟩, none⟩ = [.delimited 44] := by
+  rcases e with _ | _ | _ <;> cases ty <;> exact ⟨rfl, rfl⟩
 
 /-- …and for header objects / path `simple` objects whose `explode` is absent (default `false`) -/
 theorem absent_explode_object_not_serialized (name : Str) :
@@ -178,11 +180,11 @@ theorem absent_explode_object_not_serialized (name : Str) :
 
 /-- F13 — the no-delimiter hypothesis is necessary: `["a,b"]` in a non-exploded `form` query parameter is written
     `a,b` and read back as two items (both variants: nothing escapes the delimiter). -/
-theorem delimiter_inside_item_lost (vt vs : Variant) :
-    cellWire vt vs ⟨.query, some .form, some false, .array⟩ [112] (.arr [.str [97, 44, 98]]) = some [97, 44, 98] ∧
+theorem delimiter_inside_item_lost (vt vm vs : Variant) :
+    cellWire vt vm vs ⟨.query, some .form, some false, .array⟩ [112] (.arr [.str [97, 44, 98]]) = some [97, 44, 98] ∧
     decodeCell ⟨.query, some .form, some false, .array⟩ [112] [97, 44, 98] = some (.arr [[97], [98]]) ∧
     coerce (.arr [.str [97, 44, 98]]) = .arr [[97, 44, 98]] := by
-  cases vt <;> cases vs <;> decide
+  cases vt <;> cases vm <;> cases vs <;> decide
 
 /-- the empty array and the array holding one empty string are the same text -/
 theorem empty_array_ambiguous (vt vs : Variant) (d : Nat) (name : Str) :
@@ -192,22 +194,22 @@ theorem empty_array_ambiguous (vt vs : Variant) (d : Nat) (name : Str) :
 
 /-- booleans and null inside arrays are written with Python's `str` as found (`True`), not with the JSON spelling -/
 theorem python_repr_inside_array :
-    cellWire .asFound .asFound ⟨.query, some .form, some false, .array⟩ [112] (.arr [.bool true, .null])
+    cellWire .asFound .asFound .asFound ⟨.query, some .form, some false, .array⟩ [112] (.arr [.bool true, .null])
       = some (lit "True,None") ∧
-    cellWire .asFound .repaired ⟨.query, some .form, some false, .array⟩ [112] (.arr [.bool true, .null])
+    cellWire .asFound .asFound .repaired ⟨.query, some .form, some false, .array⟩ [112] (.arr [.bool true, .null])
       = some (lit "true,null") := by
   decide
 
 /-- `label_primitive` drops falsy values: integer 0 is written as the empty string (both variants) -/
-theorem label_zero_lost (vt vs : Variant) :
-    cellWire vt vs ⟨.path, some .label, none, .other⟩ [112] (.prim (.int 0)) = some [] ∧
+theorem label_zero_lost (vt vm vs : Variant) :
+    cellWire vt vm vs ⟨.path, some .label, none, .other⟩ [112] (.prim (.int 0)) = some [] ∧
     decodeCell ⟨.path, some .label, none, .other⟩ [112] [] = none := by
-  cases vt <;> cases vs <;> decide
+  cases vt <;> cases vm <;> cases vs <;> decide
 
 /-- non-vacuity of `style_roundtrip` / `style_roundtrip_partial`: a concrete good cell, value and decoding -/
-example : goodCell .asFound ⟨.path, some .label, some true, .object⟩ = true ∧
+example : goodCell .asFound .asFound ⟨.path, some .label, some true, .object⟩ = true ∧
     cellShape ⟨.path, some .label, some true, .object⟩ = some .labelKvs ∧
-    cellWire .asFound .asFound ⟨.path, some .label, some true, .object⟩ [112] (.obj [([114], .int 1), ([103], .str [50])])
+    cellWire .asFound .asFound .asFound ⟨.path, some .label, some true, .object⟩ [112] (.obj [([114], .int 1), ([103], .str [50])])
       = some (lit ".r=1.g=2") ∧
     decodeCell ⟨.path, some .label, some true, .object⟩ [112] (lit ".r=1.g=2") = some (.obj [([114], [49]), ([103], [50])]) := by
   decide
